@@ -14,7 +14,8 @@ the result is `Ok(module)` with
   ops       = one entry per result-producing non-phi block instruction, in order;
   functions = control mask, result type token, blocks (count, phi result types as arguments, terminator) and start block,
 
-and that no panic edge is feasible. A solver witness is turned into a binary (the model's ids / literals), loaded and lifted
+and that no panic edge is feasible. Phis are well typed (a source naming an earlier result has the phi's type): the lifter
+asserts exactly that. A solver witness is turned into a binary (the model's ids / literals), loaded and lifted
 natively (`lift_words`), and the `{:?}` rendering of the real structured module is parsed and compared with the expectation."""
 import re
 import z3
@@ -87,10 +88,73 @@ def shapes(tier):
         [D("Label"), D("Return")]])
     f2 = dict(fn=D("Function", 1, [2]), blocks=[[D("Label"), D("Undef", 1), D("ReturnValue")]])
     s.append(Shape("functions-blocks-phi-terminators", g3, [f1, f2]))
-    if tier != "quick":
-        f3 = dict(fn=D("Function", 0, [2]), blocks=[[D("Label"), D("Kill")], [D("Label"), D("Unreachable")], [D("Label"), D("BranchConditional", nlits=0)]])
-        s.append(Shape("abort-terminators", g3, [f3, f2, f1]))
+    f3 = dict(fn=D("Function", 0, [2]), blocks=[[D("Label"), D("Kill")], [D("Label"), D("Unreachable")], [D("Label"), D("BranchConditional", nlits=0)]])
+    s.append(Shape("abort-terminators", g3, [f3, f2, f1]))
+    import os
+    import random
+    rnd = random.Random(int(os.environ.get("VERIF_SEED", "0")) * 7919 + 18)
+    for k in range(10 if tier == "quick" else 80):
+        s.append(generated_shape(rnd, k, 9 if tier == "quick" else 14))
     return s
+
+
+def generated_shape(rnd, k, maxlen):
+    """A random module of the supported subset: every declaration refers to earlier declarations of the right storage."""
+    g = []
+    types, ints, floats, consts, fnty = [], [], [], [], []
+    n = rnd.randint(3, maxlen)
+    while len(g) < n:
+        choices = ["TypeVoid", "TypeBool", "TypeInt", "TypeFloat"]
+        if types:
+            choices += ["TypeVector", "TypeMatrix", "TypeRuntimeArray", "TypePointer", "TypeStruct", "TypeFunction", "ConstantNull", "ConstantTrue", "ConstantFalse"]
+        if ints or floats:
+            choices += ["Constant", "Constant"]
+        if types and consts:
+            choices += ["TypeArray", "ConstantComposite"]
+        kind = rnd.choice(choices)
+        j = len(g)
+        if kind in ("TypeVoid", "TypeBool", "TypeInt", "TypeFloat"):
+            g.append(D(kind))
+        elif kind in ("TypeVector", "TypeMatrix", "TypeRuntimeArray", "TypePointer"):
+            g.append(D(kind, None, [rnd.choice(types)]))
+        elif kind == "TypeStruct":
+            g.append(D(kind, None, [rnd.choice(types) for _ in range(rnd.randint(0, 3))]))
+        elif kind == "TypeFunction":
+            g.append(D(kind, None, [rnd.choice(types) for _ in range(rnd.randint(1, 3))]))
+            fnty.append(j)
+        elif kind == "TypeArray":
+            g.append(D(kind, None, [rnd.choice(types), rnd.choice(consts)]))
+        elif kind == "Constant":
+            g.append(D(kind, rnd.choice(ints + floats)))
+        elif kind == "ConstantComposite":
+            g.append(D(kind, rnd.choice(types), [rnd.choice(consts) for _ in range(rnd.randint(0, 3))]))
+        else:
+            g.append(D(kind, rnd.choice(types)))
+        if kind.startswith("Type"):
+            types.append(j)
+            if kind == "TypeInt":
+                ints.append(j)
+            if kind == "TypeFloat":
+                floats.append(j)
+        else:
+            consts.append(j)
+    funcs = []
+    if not fnty:
+        g.append(D("TypeFunction", None, [types[0]]))
+        fnty.append(len(g) - 1)
+        types.append(len(g) - 1)
+    for _ in range(rnd.randint(0, 2)):
+        blocks = []
+        for _b in range(rnd.randint(1, 3)):
+            blk = [D("Label")]
+            for _i in range(rnd.randint(0, 3)):
+                kind = rnd.choice(["IAdd", "FNegate", "Undef", "Phi"])
+                blk.append(D(kind, rnd.choice(types), nids=2 * rnd.randint(0, 2)) if kind == "Phi" else D(kind, rnd.choice(types)))
+            term = rnd.choice(["Return", "ReturnValue", "Kill", "Unreachable", "Branch", "BranchConditional", "BranchConditional"])
+            blk.append(D(term, nlits=rnd.choice([0, 2])) if term == "BranchConditional" else D(term))
+            blocks.append(blk)
+        funcs.append(dict(fn=D("Function", rnd.choice(types), [rnd.choice(fnty)]), blocks=blocks))
+    return Shape("generated-%d" % k, g, funcs, caps=rnd.randint(0, 3))
 
 
 class Build:
@@ -205,6 +269,7 @@ class Build:
         self.gids, self.gvals = gids, gvals
         funcs = []
         self.fvals = []
+        self.lifted_ops = []
         for f in sh.functions:
             fv, fvals, fid = self.inst(f["fn"], gids)
             blocks, bvals = [], []
@@ -214,6 +279,17 @@ class Build:
                 for d in blk[1:]:
                     iv, vals, rid = self.inst(d, gids)
                     insts.append(iv); ivals.append((d, vals, rid))
+                    _opc, has_rt, has_rid, _schema = DECLS[d.kind]
+                    if d.kind == "Phi":
+                        # well-typed phi (SPIR-V: every source has the phi's result type): a source that names an earlier
+                        # result-producing instruction names one of the same type
+                        for kind_, lst in vals:
+                            for w_ in (lst if kind_ == "ids" else []):
+                                for r_, rt_ in self.lifted_ops:
+                                    if rt_ != d.rt:
+                                        self.pre.append(w_ != r_)
+                    elif has_rid and has_rt:
+                        self.lifted_ops.append((rid, d.rt))
                 bd = {"label": opt(lab), "instructions": sym.Arr(insts, "vec")}
                 blocks.append(sym.Adt("constructs::Block", None, [bd[n] for n in self.BF]))
                 bvals.append((lid, ivals))
